@@ -243,6 +243,8 @@ pub struct Report {
     pub distinct: BTreeMap<&'static str, HashSet<u64>>,
     pub samples: Vec<String>,
     pub functions_covered: BTreeSet<String>,
+    /// number of generated functions per module
+    pub functions_total: BTreeMap<String, u64>,
 }
 
 impl Report {
@@ -313,7 +315,14 @@ impl Report {
             }
             s.push_str(&format!("\"{}\"", json_escape(x)));
         }
-        s.push_str(&format!("],\"findings_total\":{},\"findings\":[", self.findings_total));
+        s.push_str("],\"functions_total\":{");
+        for (i, (k, v)) in self.functions_total.iter().enumerate() {
+            if i > 0 {
+                s.push(',');
+            }
+            s.push_str(&format!("\"{}\":{}", json_escape(k), v));
+        }
+        s.push_str(&format!("}},\"findings_total\":{},\"findings\":[", self.findings_total));
         for (i, f) in self.findings.iter().enumerate() {
             if i > 0 {
                 s.push(',');
